@@ -32,6 +32,31 @@ def _pad_reuse_expr(array, pad_width, mode, **kwargs):
         if reflect_type != "even":
             raise ValueError("unsupported value for reflect_type, must be one of (`even`, `odd`)")
 
+    # One step can only reuse what the axis holds: ``s`` elements (``s - 1``
+    # for "reflect", which leaves the edge out).  A wider pad is built in
+    # steps, as NumPy does: the first step pads by the full reach, which makes
+    # the new edge a point the extension is symmetric (periodic) about, and the
+    # rest is padded from the enlarged array.
+    def reach(s):
+        # a single element is its own reflection: NumPy pads it like "symmetric"
+        return s - 1 if mode == "reflect" and s > 1 else s
+
+    pad_width = tuple((int(lo), int(hi)) for lo, hi in pad_width)
+    if mode == "wrap" and any(max(pw) > s > 0 for s, pw in zip(array.shape, pad_width)):
+        # whole periods plus the usual partial one, axis by axis
+        for axis, (s, (lo, hi)) in enumerate(zip(array.shape, pad_width)):
+            if max(lo, hi) <= s or s == 0:
+                continue
+            # still periodic with period s, so the partial periods left over
+            # are an ordinary wrap of the repeated array
+            array = concatenate([array] * (lo // s + 1 + hi // s), axis=axis)
+            pad_width = tuple((lo % s, hi % s) if a == axis else pw for a, pw in enumerate(pad_width))
+        return _pad_reuse_expr(array, pad_width, mode, **kwargs)
+    if any(max(pw) > reach(s) > 0 for s, pw in zip(array.shape, pad_width)):
+        first = tuple((min(lo, reach(s)), min(hi, reach(s))) for s, (lo, hi) in zip(array.shape, pad_width))
+        rest = tuple((lo - flo, hi - fhi) for (lo, hi), (flo, fhi) in zip(pad_width, first))
+        return _pad_reuse_expr(_pad_reuse_expr(array, first, mode, **kwargs), rest, mode, **kwargs)
+
     result = np.empty(array.ndim * (3,), dtype=object)
     for idx in np.ndindex(result.shape):
         select = []
@@ -41,12 +66,12 @@ def _pad_reuse_expr(array, pad_width, mode, **kwargs):
                 pw = pw[::-1]
 
             if i < 1:
-                if mode == "reflect":
+                if mode == "reflect" and s > 1:
                     select.append(slice(1, pw[0] + 1, None))
                 else:
                     select.append(slice(None, pw[0], None))
             elif i > 1:
-                if mode == "reflect":
+                if mode == "reflect" and s > 1:
                     select.append(slice(s - pw[1] - 1, s - 1, None))
                 else:
                     select.append(slice(s - pw[1], None, None))
